@@ -172,5 +172,5 @@ const ruleC04 = "C01's well-formed packets x destination lengths {0,1,11,12,hdr-
 func TestC04(t *testing.T) {
 	r := begin(t, "C04", "exploration", ruleC04)
 	defer r.finish()
-	subC04.rapidRun(r, n(30000, 400000), genMarshalToCase)
+	subC04.rapidRun(r, n(30000, 1200000), genMarshalToCase)
 }
